@@ -32,7 +32,7 @@ def demo_cmd():
     c = re.sub(r"^\(1\)\s*", "", c)
     c = re.sub(r"^(from|in) the worktree root:?\s*", "", c)
     c = re.split(r"\s+\(2\)\s+", c)[0]
-    c = re.split(r"\s*;\s*optional:", c)[0]
+    c = re.split(r"\s*;\s*optional\b[^:]*:", c)[0]
     c = re.sub(r"cd /tmp/seed[234]?-C\d\d\s*&&\s*", "", c)
     c = c.replace("/tmp/seed4-%s" % meta["property"], wt).replace("/tmp/seed3-%s" % meta["property"], wt).replace("/tmp/seed2-%s" % meta["property"], wt).replace("/tmp/seed-%s" % meta["property"], wt)
     c = c.strip()
